@@ -98,8 +98,9 @@ class BudgetSplit(Lemma):
 
 class StoppingTest(Lemma):
     """criteria_giles on 1, 2, 3 and 4 levels (real body, alpha = 1): it returns a verdict (no exception) and accepts exactly
-    when the largest extrapolated correction max(m_L, m_{L-1}/2, m_{L-2}/4) over the levels that EXIST is within rmse/sqrt(2)
-    times (2^alpha - 1)."""
+    when the largest extrapolated correction max(m_L, m_{L-1}/2, m_{L-2}/4) over the levels that EXIST is within the bias
+    tolerance sqrt(theta) rmse = rmse / 2 times (2^alpha - 1): the share theta = 0.25 of rmse^2 that the allocation (variance
+    share 0.75 rmse^2, lemma allocation-meets-the-variance-budget) leaves to the squared bias."""
     prop = "C06"
     cases = (1, 2, 3, 4)
     name = "property:stopping-test"
@@ -117,8 +118,8 @@ class StoppingTest(Lemma):
             return
         terms = [ml[n - 1 - k] / 2 ** k for k in range(min(3, n))]
         rem = smax(*terms) if len(terms) > 1 else terms[0]
-        # rmse / sqrt(2): compare squares (both sides non-negative)
-        vc.check(nm + "::accepts-exactly-when-the-extrapolated-correction-is-within-tolerance", conv == (2 * rem * rem <= rmse * rmse))
+        # rmse / 2: compare squares (both sides non-negative)
+        vc.check(nm + "::accepts-exactly-when-the-extrapolated-correction-is-within-tolerance", conv == (4 * rem * rem <= rmse * rmse))
 
     def replay(self, model, clause, n):
         from rpylib.montecarlo.multilevel.criteria import criteria_giles
@@ -127,7 +128,9 @@ class StoppingTest(Lemma):
             v = bool(criteria_giles(1.0, ml, 0.1))
         except Exception as e:
             return (True, {"levels": n, "ml": ml.tolist(), "exception": f"{type(e).__name__}: {e}"})
-        want = max(ml[n - 1 - k] / 2 ** k for k in range(min(3, n))) <= 0.1 / np.sqrt(2)
+        ml = ml * 1.5                  # (0.06, ...): between the two candidate tolerances rmse/2 = 0.05 and rmse/sqrt(2) = 0.0707
+        v = bool(criteria_giles(1.0, ml, 0.1))
+        want = max(ml[n - 1 - k] / 2 ** k for k in range(min(3, n))) <= 0.1 / 2
         return (v != want, {"levels": n, "ml": ml.tolist(), "verdict": v, "expected": bool(want)})
 
 
